@@ -31,6 +31,7 @@ Apply(c, v, op, k, x, h) ==
                         ELSE Res(c, v, FALSE, 1, 0, <<>>)
     [] op = "clear" -> Res(EmptyChains, NoVals, TRUE, 0, 0, <<>>)
     [] op = "size" -> Res(c, v, TRUE, 0, Count(v), <<>>)
+    [] op = "debug" -> Res(c, v, TRUE, 0, 0, <<>>)
     [] op = "walk" -> Res(c, v, TRUE, 0, Count(v), WalkKV(c, v))
 Allocating == {"put", "get", "walk"}
 Init == chain = EmptyChains /\ val = NoVals /\ lastOp = [op |-> "init", k |-> 0, v |-> 0]
@@ -38,7 +39,7 @@ Do(op, k, x) == LET r == Apply(chain, val, op, k, x, IF k = 0 THEN 0 ELSE Home[k
                 chain' = r.chain /\ val' = r.val /\ lastOp' = [op |-> op, k |-> k, v |-> x]
 Next == \/ \E k \in Keys, x \in Vals : Do("put", k, x)
         \/ \E op \in {"get", "remove"}, k \in Keys : Do(op, k, 0)
-        \/ \E op \in {"clear", "size", "walk"} : Do(op, 0, 0)
+        \/ \E op \in {"clear", "size", "walk", "debug"} : Do(op, 0, 0)
 Spec == Init /\ [][Next]_vars
 \* ---- design properties ----
 \* chains partition the stored keys by home slot, no key twice
